@@ -182,6 +182,18 @@ class Engine:
             if old.name == name and old.verdict == 'refuted':
                 st.assume(goal)     # already refuted on another path: one counterexample is enough
                 return
+            if old.name == name and old.verdict == 'undecided' and getattr(old, 'paths', 1) >= 2 \
+                    and not os.environ.get('PYVC_ALL_PATHS'):
+                # undecided on two paths already: the verdict can only change to `refuted`; look for a
+                # counterexample on the further paths with a short budget instead of the full ladder
+                verdict, backend, ms, info = solve.prove(st.pc, goal, timeout_ms=1500, quick=True)
+                if verdict == 'refuted':
+                    model = self.model_to_json(info, st)
+                    self.merge_result(ObResult(name, kind, self.cur_fn, line, verdict, backend, ms, None, model,
+                                               prop=(getattr(self, 'clause_props', None) or
+                                                     (self.cur_contract.prop if self.cur_contract else ())), text=text))
+                st.assume(goal)
+                return
         verdict, backend, ms, info = solve.prove(st.pc, goal, timeout_ms=getattr(self, 'timeout_ms', None))
         if os.environ.get('PYVC_TRACE'):
             print('TRACE %-50s %-9s %7.0fms pc=%d last-line=%s' % (name, verdict, ms, len(st.pc), getattr(st, 'last_line', '?')), flush=True)
